@@ -76,6 +76,16 @@ Theorem C16_op_id_collision : forall (H : bytes -> bytes) (o1 o2 : operation),
   o1 = o2 \/ (enc_operation o1 <> enc_operation o2 /\ H (enc_operation o1) = H (enc_operation o2)).
 Proof. exact op_id_collision. Qed.
 
+(** Whatever view_from_proto accepts — including every legacy form — is a well-formed view
+    (so the domain of the round-trip theorem is closed under reading), and can be written
+    and read again unchanged. *)
+Theorem C16_read_is_wf : forall p v, view_from_proto p = Ok v -> wf_view v.
+Proof. exact view_from_proto_wf. Qed.
+
+Theorem C16_reread : forall p v,
+  view_from_proto p = Ok v -> view_from_proto (view_to_proto v) = Ok v.
+Proof. exact view_reread. Qed.
+
 (** O3: outside [wf_view] the round trip fails — an absent local bookmark target is dropped
     by the legacy form. (jj_lib::view::View::set_local_bookmark_target removes the entry
     instead of storing an absent target; the correspondence run checks [wf_viewb] on views
@@ -99,8 +109,11 @@ Check C16_enc_injective_view : forall v1 v2,
 Check C16_enc_injective_op : forall o1 o2,
   op_enc_wfb o1 = true -> op_enc_wfb o2 = true -> enc_operation o1 = enc_operation o2 -> o1 = o2.
 
-(** The field order of the encoding is the declaration order scraped from the sources. *)
+(** The field order of the encoding is the declaration order scraped from the sources, and
+    the id lengths demanded on read are the BLAKE2b-512 output length (64 bytes) that
+    write_view / write_operation produce. *)
 Example C16_field_order :
+  C16_OPERATION_ID_LENGTH = 64 /\ C16_VIEW_ID_LENGTH = 64 /\
   C16_VIEW_FIELDS = ["head_ids"; "local_bookmarks"; "local_tags"; "remote_views"; "git_refs";
                      "git_heads"; "wc_commit_ids"]%string
   /\ C16_REMOTE_VIEW_FIELDS = ["bookmarks"; "tags"]%string
@@ -140,4 +153,5 @@ Print Assumptions C16_view_roundtrip.
 Print Assumptions C16_op_roundtrip.
 Print Assumptions C16_enc_injective_view.
 Print Assumptions C16_enc_injective_op.
+Print Assumptions C16_read_is_wf.
 Print Assumptions C16_okb_spec.
